@@ -89,6 +89,7 @@ class Ctx:
         self.dense_outcomes = set()
         self.prune = {"C06", "C07", "C15", "C17"}
         self.value_bound_cells = None
+        self.focus = None
 
     def v(self, prop, site, op, detail):
         self.viol.append((prop, site, op, str(detail)[:1500]))
@@ -223,12 +224,14 @@ def check_result(obj, exp_dense, opd, ctx, opname, chosen_common=False, enqueue=
     decided, so that the first counterexample is the shortest and malformed states do not multiply) or the state cannot be
     modelled at all (the independent reader rejects it)."""
     n0 = len(ctx.viol)
+    f = ctx.focus  # the property being decided: invariants that can only report OTHER properties are skipped (None = all)
     ok = dense_equal(obj, exp_dense, opd, ctx, opname)
-    wf = wellformed(obj, exp_dense if ok else None, opd, ctx, opname)
-    ok = wf and ok
-    if ok:
+    if f in (None, "C07", "C15"):
+        wf = wellformed(obj, exp_dense if ok else None, opd, ctx, opname)
+        ok = wf and ok
+    if ok and f in (None, "C15"):
         ok = equality_ok(obj, exp_dense, opd, ctx, opname) and ok
-    if ok and chosen_common and not most_frequent_ok(exp_dense, obj.common):
+    if ok and f in (None, "C15") and chosen_common and not most_frequent_ok(exp_dense, obj.common):
         ctx.v("C15", "%s:common-not-most-frequent" % opname, opd, "library chose common %r for dense %r" % (obj.common, exp_dense.tolist()))
         ok = False
     ctx.ntrans += 1
@@ -275,6 +278,8 @@ def no_shared_memory(src, res, opd, ctx, opname):
 def alias_check(sources, res, opd, ctx, opname):
     """An index derived from others must behave as its own array from then on: mutating the result in place
     (shift_common, update, append) must leave every source index exactly as it was. Call last: `res` is consumed."""
+    if ctx.focus not in (None, "C06"):
+        return
     snaps = [(src, key_of(src)) for src in sources]
 
     def verify(step):
@@ -337,7 +342,7 @@ def reindex_mappings(common, present):
 
 # ----------------------------------------------------------------------------- expansion
 
-def expand(key, cfg, reverse=False, prune=None):
+def expand(key, cfg, reverse=False, prune=None, focus=None):
     """Execute every enabled operation from the state `key`. Returns a Ctx."""
     from catii import iindexes
     from catii.iindexes import iindex
@@ -347,6 +352,7 @@ def expand(key, cfg, reverse=False, prune=None):
     if prune is not None:
         ctx.prune = set(prune)
     ctx.value_bound_cells = cfg.get("value_bound_cells")
+    ctx.focus = focus
     shape, common, _ = key
     d = dense_of(key)
     ndim = len(shape)
@@ -771,14 +777,15 @@ def initial_keys(cfg):
 _CFG = None
 _REV = False
 _PRUNE = None
+_FOCUS = None
 
 
 def _w_expand(key):
     try:
-        ctx = expand(key, _CFG, prune=_PRUNE)
+        ctx = expand(key, _CFG, prune=_PRUNE, focus=_FOCUS)
         res = [(key, ctx.viol, ctx.ntrans, ctx.succ, ctx.stats, ctx.dense_outcomes)]
         if _REV:
-            ctx2 = expand(key, _CFG, reverse=True, prune=_PRUNE)
+            ctx2 = expand(key, _CFG, reverse=True, prune=_PRUNE, focus=_FOCUS)
             s1 = sorted((k, repr(o)) for k, o in ctx.succ)
             s2 = sorted((k, repr(o)) for k, o in ctx2.succ)
             if s1 != s2 or len(ctx2.viol) != len(ctx.viol):
@@ -797,9 +804,10 @@ def search(tier, nproc=None, prop=None, max_seconds=None, max_states=200000):
     prop: the property being decided. Targets of transitions violating it are not expanded, and the search stops after the
     first BFS level on which it is violated (shortest counterexample). Violations of other properties are counted, and their
     targets are still expanded when they can be modelled."""
-    global _CFG, _REV, _PRUNE
+    global _CFG, _REV, _PRUNE, _FOCUS
     cfg = BOUNDS[tier]
     _CFG = cfg
+    _FOCUS = prop
     _PRUNE = {prop} if prop else None
     if prop == "C15":
         _PRUNE = {"C15", "C07"}  # equality is only claimed between well-formed indexes
